@@ -440,3 +440,34 @@ SCENARIOS += [
                                        "all(...) over a sequence of symbolic length is used at the Skolem position only (nothing else assumed)"],
              max_paths=20000, budget_s=900),
 ]
+
+
+def s_same_shape_anyrank(ctx):
+    """_ir_utils.same_shape for shapes of ANY rank: True only if both are known, have the same rank and every pair of dims is equal at run
+    time under every binding — in particular no dim is unknown (two unknown dims are never 'the same')."""
+    import onnx_ir as ir
+    from onnxscript.rewriter import _ir_utils
+    I = Interp(ctx)
+    I.quant_skolem = True
+    A = SymShape(I, "a")
+    B = SymShape(I, "b")
+    i0 = ctx.int("i0")
+    ctx.assume(i0 >= 0)
+    ctx.witness["i0"] = i0
+    r = I.call(_ir_utils.same_shape, [A.obj, B.obj])
+    if not I.truth(r):
+        ctx.cover("same_shape.any_rank.false")
+        return
+    ctx.cover("same_shape.any_rank.true")
+    I.instantiate_forall(i0)
+    ctx.check("C09.ir_utils.same_shape.any_rank.true_only_for_shapes_of_equal_rank", A.rank == B.rank, CLR)
+    pa, pb = A.rank - 1 - i0, B.rank - 1 - i0
+    A.facts(pa)
+    B.facts(pb)
+    ctx.check("C09.ir_utils.same_shape.any_rank.true_only_if_no_dim_is_unknown", z3.Implies(i0 < A.rank, z3.And(A.kind(pa) != 2, B.kind(pb) != 2)),
+              "C09: 'distinct symbols bound to equal values or equal symbols used twice' — unknown dims are never equal")
+    ctx.check("C09.ir_utils.same_shape.any_rank.true_only_if_runtime_dims_equal_for_every_binding", z3.Implies(i0 < A.rank, A.rt(pa) == B.rt(pb)), CLR)
+
+
+SCENARIOS.append(Scenario("C09.ir_utils.same_shape[any rank]", s_same_shape_anyrank, [("onnxscript/rewriter/_ir_utils.py", "same_shape")],
+                          trusted=_TR, assumptions=["`None in dims` and `dims == dims` over symbolic-length sequences are used at one arbitrary (Skolem) position"]))
